@@ -69,6 +69,11 @@ def pre_instantiate(pc, goal, cap=160):
     for a in list(pc) + [goal]:
         _ground_apps(a, table, seen)
     out, keys = [], set()
+    _instantiate_round(quants, table, out, keys, cap)
+    return out
+
+
+def _instantiate_round(quants, table, out, keys, cap):
     for q in quants:
         n = q.num_vars()
         if n > 2:
@@ -117,8 +122,7 @@ def pre_instantiate(pc, goal, cap=160):
                 except z3.Z3Exception:
                     continue
                 if len(out) >= cap:
-                    return out
-    return out
+                    return
 
 
 def _subterms(t):
@@ -163,11 +167,11 @@ CONFIGS = {
     'z3-ematch': {'auto_config': False, 'smt.mbqi': False, 'smt.relevancy': 0},
     'z3-default': {},
     'z3-mbqi': {'smt.mbqi': True},
-    'z3-seed1': {'smt.random_seed': 7, 'sat.random_seed': 7, 'smt.mbqi': True, 'smt.arith.solver': 2},
+    'z3-seed1': {'smt.random_seed': 7, 'smt.mbqi': True, 'smt.arith.solver': 2},
 }
 
 
-def _check_once(smt2, cfg, timeout_ms):
+def _check_once_inproc(smt2, cfg, timeout_ms):
     # a fresh context per query: the verdict for a given SMT-LIB text must not depend on which other obligations the same
     # worker process happened to solve before (term ids and symbol tables of a shared context influence z3's heuristics)
     ctx = z3.Context()
@@ -194,7 +198,7 @@ def _check_once(smt2, cfg, timeout_ms):
     return str(r), dt, model, (s.reason_unknown() if r == z3.unknown else '')
 
 
-def _check_pow2_exact(smt2, timeout_ms, lo=-200, hi=200):
+def _check_pow2_exact_inproc(smt2, timeout_ms, lo=-200, hi=200):
     ctx = z3.Context()
     s = z3.Solver(ctx=ctx)
     s.set('timeout', min(timeout_ms, 20000))
@@ -235,6 +239,82 @@ def _check_pow2_exact(smt2, timeout_ms, lo=-200, hi=200):
         m = s.model()
         model = {d.name(): str(m[d]) for d in m.decls()}
     return str(r), dt, model
+
+
+def _isolated(fn, args, hard_s, on_kill):
+    """Runs fn(*args) in a forked child and kills it at the hard deadline.  z3's own 'timeout' is cooperative: some of its
+    procedures (seen: the Diophantine-equation solver of z3 5.1 multiplying huge rationals) do not poll it, and one such
+    query used to stall a whole check for tens of minutes.  A killed query is reported as 'unknown', never as a verdict."""
+    import pickle, select, signal
+    if os.environ.get('PYVC_NO_ISOLATE'):
+        return fn(*args)
+    r, w = os.pipe()
+    pid = os.fork()
+    if pid == 0:
+        code = 0
+        try:
+            os.close(r)
+            try:
+                data = pickle.dumps(('ok', fn(*args)))
+            except BaseException as e:      # the parent re-raises it
+                data = pickle.dumps(('z3exc' if isinstance(e, z3.Z3Exception) else 'exc', '%s: %s' % (type(e).__name__, str(e)[:500])))
+            with os.fdopen(w, 'wb') as f:
+                f.write(data)
+        except BaseException:
+            code = 1
+        finally:
+            os._exit(code)
+    os.close(w)
+    t0 = time.time()
+    chunks = []
+    killed = False
+    try:
+        while True:
+            left = hard_s - (time.time() - t0)
+            if left <= 0:
+                killed = True
+                break
+            ready, _, _ = select.select([r], [], [], min(left, 1.0))
+            if ready:
+                b = os.read(r, 1 << 16)
+                if not b:
+                    break
+                chunks.append(b)
+    finally:
+        os.close(r)
+        if killed:
+            try:
+                os.kill(pid, signal.SIGKILL)
+            except OSError:
+                pass
+        try:
+            os.waitpid(pid, 0)
+        except OSError:
+            pass
+    if killed:
+        return on_kill(time.time() - t0)
+    if not chunks:
+        return on_kill(time.time() - t0, 'solver process died without an answer')
+    kind, val = pickle.loads(b''.join(chunks))
+    if kind == 'z3exc':
+        raise z3.Z3Exception(val)
+    if kind == 'exc':
+        raise RuntimeError('solver query failed: ' + val)
+    return val
+
+
+def _hard_limit(timeout_ms):
+    return timeout_ms / 1000.0 * 1.5 + 10.0
+
+
+def _check_once(smt2, cfg, timeout_ms):
+    return _isolated(_check_once_inproc, (smt2, cfg, timeout_ms), _hard_limit(timeout_ms),
+                     lambda dt, why='hard time limit: the solver did not honour its timeout and was killed': ('unknown', dt, None, why))
+
+
+def _check_pow2_exact(smt2, timeout_ms, lo=-200, hi=200):
+    return _isolated(_check_pow2_exact_inproc, (smt2, timeout_ms, lo, hi), _hard_limit(timeout_ms) + 10.0,
+                     lambda dt, why='': ('unknown', dt, None))
 
 
 def _cvc5(smt2, timeout_ms, strings):
